@@ -454,6 +454,123 @@ class ProgGen:
 		self.count(f'generic-chain:{arg if arg != base else "class"}:{len(chain) - 1}')
 		return out, body
 
+	def operator_block(self) -> tuple[list[str], list[str]]:
+		"""User classes that overload binary operators (OperationTrait.try_operation, traits.py:178-225, incl. the `inherits` loop that
+		accepts an operand of a DERIVED class for a parameter of the base class): a root class declaring two to four operators over its
+		own class (`other: 'R'`, quoted or not), optionally one taking a scalar (with the reflected method of the same type, so
+		`2 * r` runs too); children that override some operators with their OWN class as result, children that override nothing, a
+		grandchild. Every (left, right) combination of instances is a candidate: CPython dispatches on the LEFT operand's class (no
+		reflected method of the operand's class is declared for class operands), so the result type is the return type of the nearest
+		declaration above the left operand. Results are used again (attribute, chain, list literal).
+		A RIGHT operand two levels below the parameter class is typed through the operand's own method (known finding
+		operator-operand-indirect-subclass, proposed/C03-operator-operand-indirect-subclass.md): low rate, result unused.
+		Returns (definitions, body lines of the entry function)."""
+		rng = self.rng
+		out: list[str] = []
+		body: list[str] = []
+		tokens = {'__add__': '+', '__sub__': '-', '__mul__': '*', '__truediv__': '/', '__mod__': '%', '__or__': '|', '__and__': '&', '__xor__': '^', '__lshift__': '<<', '__rshift__': '>>'}
+		root = self.fresh('R')
+		ops = rng.sample(list(tokens), rng.randint(2, 4))
+		quoted = rng.random() < 0.5
+		scalar = None
+		out += ['', '', f'class {root}:', '\tv: int', '', '\tdef __init__(self, v: int) -> None:', '\t\tself.v = v']
+		for d in ops:
+			out += ['', f"\tdef {d}(self, other: '{root}') -> '{root}':", f'\t\treturn {root}(self.v + other.v)']
+		if rng.random() < 0.5:
+			d = rng.choice([x for x in ('__mul__', '__add__', '__mod__', '__lshift__') if x not in ops])
+			st, lit_ = rng.choice([('int', '2'), ('float', '1.5'), ('str', '"w"')])
+			scalar = (d, st, lit_)
+			out += ['', f"\tdef {d}(self, k: {st}) -> '{root}':", f'\t\treturn {root}(self.v + 1)',
+				'', f"\tdef __r{d[2:]}(self, k: {st}) -> '{root}':", f'\t\treturn {root}(self.v + 2)']
+		depth = {root: 0}
+		ret: dict[tuple[str, str], str] = {(root, d): root for d in ops}     # (class, dunder) -> class returned by the nearest declaration
+		parent_of = {root: None}
+		classes = [root]
+		for ci in range(rng.randint(1, 3)):
+			par = rng.choice([c for c in classes if depth[c] < 2])
+			cls = self.fresh('S')
+			over = [d for d in ops if rng.random() < 0.5] if rng.random() < 0.7 else []
+			if ci == 0 and not over:
+				over = [rng.choice(ops)]      # at least one class overrides an operator with its own class as the result
+			out += ['', '', f'class {cls}({par}):']
+			for d in over:
+				ann = f"'{root}'" if quoted else root
+				out += [f"\tdef {d}(self, other: {ann}) -> '{cls}':", f'\t\treturn {cls}(self.v * 2 + other.v)', '']
+			m = self.fresh('only')
+			out += [f'\tdef {m}(self) -> int:', '\t\treturn self.v']
+			for d in ops:
+				ret[(cls, d)] = cls if d in over else ret[(par, d)]
+			depth[cls] = depth[par] + 1
+			parent_of[cls] = par  # type: ignore[assignment]
+			classes.append(cls)
+
+		def decl(expr: str) -> str:
+			v = self.fresh('v')
+			body.append(f'\t{v} = {expr}')
+			return v
+
+		inst = {c: decl(f'{c}({rng.randint(1, 9)})') for c in classes}
+		pairs = [(l, r, d) for l in classes for r in classes for d in ops]
+		rng.shuffle(pairs)
+		# first the combinations in which the two operands' classes answer the operator DIFFERENTLY (the left one decides), then any
+		pairs.sort(key=lambda lrd: ret[(lrd[0], lrd[2])] == ret[(lrd[1], lrd[2])] or depth[lrd[1]] >= 2)
+		n_diff = sum(1 for l, r, d in pairs if ret[(l, d)] != ret[(r, d)] and depth[r] < 2)
+		pairs = pairs[:min(n_diff, 4)] + rng.sample(pairs[min(n_diff, 4):], min(len(pairs) - min(n_diff, 4), rng.randint(3, 6)))
+		made: list[tuple[str, str]] = []    # (variable, class)
+		for l, r, d in pairs:
+			e = f'{inst[l]} {tokens[d]} {inst[r]}'
+			if depth[r] >= 2:
+				if rng.random() < 0.2:
+					decl(e)      # known finding: the result is not used again
+					self.count('operator-operand-indirect-subclass')
+				continue
+			x = decl(e)
+			made.append((x, ret[(l, d)]))
+			u = rng.random()
+			if u < 0.3:
+				decl(f'({e}).v')
+			elif u < 0.5:
+				decl(f'[{e}, {x}]')
+			elif u < 0.75:
+				# a chain: the second step dispatches on the result class of the first
+				d2 = rng.choice(ops)
+				r2 = rng.choice([c for c in classes if depth[c] < 2])
+				if tokens[d2] in '+-' and tokens[d] in '+-' or tokens[d2] in '*/%' and tokens[d] in '*/%' or d2 == d:
+					y = decl(f'{e} {tokens[d2]} {inst[r2]}')
+				else:
+					y = decl(f'({e}) {tokens[d2]} {inst[r2]}')
+				made.append((y, ret[(ret[(l, d)], d2)]))
+			self.count(f'operator:{"override" if ret[(l, d)] != root else "base"}:{"derived-operand" if depth[r] > depth[l] else "same" if r == l else "other-operand"}')
+		if scalar:
+			d, st, lit_ = scalar
+			c = rng.choice(classes)
+			decl(f'{inst[c]} {tokens[d]} {lit_}')
+			if d == '__lshift__' and st == 'int':
+				# a shift is typed by the LEFT operand's method without looking at the operand (traits.py:205-207): `2 << r` is typed int
+				# although CPython answers r.__rlshift__(2) (known finding shift-reflected-user-operand): low rate, result unused
+				if rng.random() < 0.25:
+					decl(f'{lit_} {tokens[d]} {inst[c]}')
+					self.count('shift-reflected-user-operand')
+			elif st != 'str' or d != '__mod__':     # "w" % obj is str formatting
+				decl(f'{lit_} {tokens[d]} {inst[c]}')
+			decl(f'({inst[c]} {tokens[d]} {lit_}).v')
+			self.count(f'operator:scalar:{st}')
+		for x, _ in made[:3]:
+			decl(f'{x}.v')
+		if rng.random() < 0.6:
+			# two UNRELATED classes that declare the same operator over each other: the left operand's declaration decides
+			u, w = self.fresh('U'), self.fresh('W')
+			d = rng.choice(list(tokens))
+			for me, you in ((u, w), (w, u)):
+				out += ['', '', f'class {me}:', '	v: int', '', '	def __init__(self, v: int) -> None:', '		self.v = v', '',
+					f"	def {d}(self, other: '{you}') -> '{me}':", f'		return {me}(self.v + other.v)']
+			iu, iw = decl(f'{u}(1)'), decl(f'{w}(2)')
+			x = decl(f'{iu} {tokens[d]} {iw}')
+			decl(f'[{iw} {tokens[d]} {iu}, {iw} {tokens[d]} {iu}]')
+			decl(f'{x}.v')
+			self.count('operator:unrelated-classes')
+		return out, body
+
 	def generate(self) -> tuple[str, dict[str, int]]:
 		rng = self.rng
 		out: list[str] = []
@@ -540,6 +657,10 @@ class ProgGen:
 			mdefs, mbody = self.multi_inherit_block()
 			out += mdefs
 			nullable_body += mbody
+		if rng.random() < 0.75 and not self.modelled:
+			odefs, obody = self.operator_block()
+			out += odefs
+			nullable_body += obody
 		it_cls = itb_cls = None
 		it_ty = rng.choice(['int', 'str', 'float'])
 		if use_iter:
